@@ -59,6 +59,14 @@ CLAIMED = {
              'equal the A8.8 pseudocode. quick: arch 7 + anchors on arch 6 with SCTLR.A/U symbolic; thorough: all rows, '
              'arch 6/7, SCTLR.A/U and CPSR.E symbolic.',
         ref='DESIGN.md 6/C02', note='MPU off; exclusive monitors are constant-False stubs in the repository'),
+    'C03': dict(
+        text='Every block-transfer / stack row (33 rows: LDM/STM x4 modes, PUSH/POP, user-bank and exception-return '
+             'forms, SRS, RFE; ARM + Thumb) stepped through the real emulate_cycle with base value, W, mode/bank, '
+             'register values and memory symbolic and the register list symbolic on windows of list bits; transferred '
+             '(address, register) pairs, final base / banked SP, PC load, CPSR restore and frame vs the pseudocode; '
+             'PUSH;POP of the same list over two real steps restores all registers and SP.',
+        ref='DESIGN.md 6/C03', note='register lists windowed (<= 8 symbolic bits at once; every bit symbolic in some '
+                                    'window); known finding F033 (PUSH.W unaligned SP) excluded by region'),
     'C04': dict(
         text='Every branch row (B, BL/BLX, BX, BXJ, CBZ, TBB/TBH) with the whole offset field, the instruction address '
              'and all state symbolic: target, LR, instruction-set selection, frame; sequential advance / PC reads / '
@@ -128,7 +136,7 @@ CLAIMED = {
 NOT_BUILT = 'check not built yet (framework under construction; see DESIGN.md Appendix A)'
 
 # properties whose checks exist but whose end-to-end run on the unchanged tree is not yet validated are not claimed
-READY = ['C01', 'C02', 'C04', 'C05', 'C06', 'C07', 'C08', 'C09', 'C10', 'C11', 'C13', 'C14', 'C15', 'C16', 'C17', 'C20']
+READY = ['C%02d' % i for i in range(1, 21)]
 
 
 def main():
